@@ -331,7 +331,21 @@ func runScenario(c *fw.Ctx, s *Scenario) {
 	pc.Inject(makeDatagram(999, 1, 32), probe)
 	served := false
 	deadline := time.Now().Add(5 * time.Second)
-	for time.Now().Before(deadline) {
+	// The loop serves one datagram at a time and waits while the queue of the client it is delivering to is full, so
+	// a slow handler with a long backlog legitimately delays everybody else: the 5 s count from the last sign of
+	// progress (a read by any association, a shrinking backlog), with a generous cap.
+	progress := func() int {
+		n := -pc.Backlog()
+		for _, rc := range recs {
+			n += rc.Count("udp-read", "")
+		}
+		return n
+	}
+	last, hardStop := progress(), time.Now().Add(90*time.Second)
+	for time.Now().Before(deadline) && time.Now().Before(hardStop) {
+		if p := progress(); p != last {
+			last, deadline = p, time.Now().Add(5*time.Second)
+		}
 		switch s.Handler {
 		case "echo", "proxy":
 			for _, sd := range pc.Sent() {
@@ -350,7 +364,7 @@ func runScenario(c *fw.Ctx, s *Scenario) {
 		time.Sleep(time.Millisecond)
 	}
 	if !served {
-		report("loop-not-serving", "a fresh client's datagram was not served within 5 s after the storm (server loop dead or stuck)", nil)
+		report("loop-not-serving", "a fresh client's datagram was not served although nothing had moved for 5 s after the storm (server loop dead or stuck)", nil)
 	}
 
 	// delivery oracle (recording handlers)
